@@ -77,7 +77,8 @@ ASSUMPTIONS = [
     "would carry the change into later renders)",
     "errors are outcomes compared by class: TemplateError, TypeError, ValueError, ArithmeticError, LookupError, AttributeError, "
     "AssertionError (truncate's argument assertion)",
-    "random filter and lipsum are not used; set-valued output is sorted in the template",
+    "random filter and lipsum are not used; set-valued output is sorted in the template; object addresses inside rendered "
+    "text (repr of a lazy filter result) are normalised before comparing",
     "thread part: chance-driven schedule exploration, sound on every schedule; switches reported are a lower bound "
     "observed at variable-lookup granularity",
 ]
@@ -305,8 +306,21 @@ class World:
         return out
 
 
+_ADDR = re.compile(r" at 0x[0-9a-fA-F]+")
+
+
 def run_entry(world, name, entry, di, loop):
-    """-> ["out", text, extra] | ["err", class name, text produced before the error]"""
+    """-> ["out", text, extra] | ["err", class name, text produced before the error]; object addresses that a repr
+    put into the text are normalised (a lazy filter result or a method printed by a template)."""
+    r = _run_entry(world, name, entry, di, loop)
+    if isinstance(r[1], str) and " at 0x" in r[1]:
+        r[1] = _ADDR.sub(" at 0x?", r[1])
+    if isinstance(r[2], str) and " at 0x" in r[2]:
+        r[2] = _ADDR.sub(" at 0x?", r[2])
+    return r
+
+
+def _run_entry(world, name, entry, di, loop):
     from jinja2.utils import concat
 
     env = world.env
@@ -630,7 +644,7 @@ TYPED = [
     ("", "{{ DL|groupby('k') }}{% for g in DL|groupby('k') %}{{ g.grouper }}:{{ g.list|length }}{% endfor %}"),
     ("container_arg", "{{ DL|groupby('zz', default=%(any)s)|length }}{{ OL|groupby('k')|length }}"),
     ("", "{{ %(seq)s|unique|list }}{{ S|unique(case_sensitive=true)|list }}{{ DL|unique(attribute='k')|list|length }}"),
-    ("", "{{ %(seq)s|reverse|list }}{{ W|reverse }}{{ %(seq)s|list }}{{ %(dict)s|list }}{{ ST|list|sort }}"),
+    ("", "{{ %(seq)s|reverse|list }}{{ W|reverse|list }}{{ %(seq)s|list }}{{ %(dict)s|list }}{{ ST|list|sort }}"),
     ("", "{{ %(dict)s|items|list }}{{ %(dict)s|dictsort }}{{ %(dict)s|dictsort(by='value', reverse=true) }}"),
     ("", "{{ %(seq)s|join(',') }}{{ DL|join('|', attribute='k') }}{{ %(seq)s|first }}{{ %(seq)s|last }}{{ %(seq)s|length }}"),
     ("", "{{ %(seq)s|max }}{{ %(seq)s|min }}{{ DL|max(attribute='v') }}{{ %(seq)s|select('odd')|list }}{{ %(seq)s|reject('odd')|list }}"),
@@ -874,7 +888,7 @@ def shards(tier):
 def run_shard(spec, ctx):
     import hypothesis.errors
 
-    n = ctx.pick(300, 3200)  # measured ~0.12 s CPU per case (quick sizes), ~0.17 s (thorough sizes)
+    n = ctx.pick(280, 3200)  # measured ~0.12 s CPU per case (quick sizes), ~0.17 s (thorough sizes)
     strat = _strategy(ctx.pick((7, 3, 14, 3), (10, 4, 30, 4)))
     rec = core.Rec()
     for k in THREAD_STATS:
